@@ -35,6 +35,7 @@ type sandbox struct {
 
 	Suffixes []string
 	Targets  []string // existing paths outside Root (files and dirs)
+	Embed    []string // existing paths below S/elsewhere/<absolute path of Root>/ (a replica of the root's path in a foreign tree)
 
 	excl     []string          // subtrees that belong to the component (not part of "outside")
 	pristine map[string]string // snapshot at freeze
@@ -104,6 +105,7 @@ func (sb *sandbox) build() {
 	}
 	seedDir(filepath.Join(sb.Outer, "zz-unrelated"))
 	seedDir(filepath.Join(sb.S, "elsewhere"))
+	sb.Embed = sb.seedReplica(sb.Root)
 	p := sb.S
 	for _, a := range sb.Anc {
 		mustWrite(filepath.Join(p, "up.rec"), can)
@@ -112,6 +114,23 @@ func (sb *sandbox) build() {
 	}
 	mustWrite(filepath.Join(p, "up.rec"), can)
 	sb.Targets = append(sb.Targets, filepath.Join(p, "up.rec"), sb.Outer)
+}
+
+// seedReplica creates S/elsewhere/<abs>/ (abs = an absolute path, replicated inside the
+// foreign tree) with canaries and returns the paths below it.
+func (sb *sandbox) seedReplica(abs string) []string {
+	d := filepath.Join(sb.S, "elsewhere") + abs
+	can := canaryRecord(sb.CTok)
+	files := []string{"rec1", "in1", "sub/rec2", "tok" + sb.Token + "r_v1-0-0.zip", "pkg/tok" + sb.Token + "rb_v2-0-0"}
+	var out []string
+	for _, f := range files {
+		mustWrite(filepath.Join(d, f), can)
+		out = append(out, filepath.Join(d, f))
+	}
+	out = append(out, filepath.Join(d, "sub"), filepath.Join(d, "pkg"))
+	sb.Targets = append(sb.Targets, d)
+	sb.Targets = append(sb.Targets, out...)
+	return out
 }
 
 func (sb *sandbox) excluded(p string) bool {
